@@ -602,6 +602,19 @@ def rule_compression(ctx: Ctx):
                             if isinstance(x, ast.Name) and site.module.enclosing_function(n) is site.subscribe_fn:
                                 (created if top else elsewhere).add(x.id)
             created -= elsewhere
+            # ... also when the creation is written under a test the subscribe function decides the same way on every path (an option
+            # of the operator at its default): assigned exactly once on every path, from a call
+            per = []
+            for p_ in ctx.fn_paths(site.module, site.subscribe_fn):
+                cnt = {}
+                for e in p_.trace:
+                    if e.k == "assign":
+                        cnt.setdefault(e.name, []).append(e.value)
+                per.append(cnt)
+            if per:
+                created |= {n_ for n_ in per[0] if n_ not in elsewhere - {n_} and all(
+                    len(c.get(n_, [])) >= 1 and all(v_[0] in ("call", "mcall") for v_ in c[n_]) for c in per)
+                    and not any(isinstance(x, ast.Nonlocal) and n_ in x.names for x in ast.walk(site.subscribe_fn))}
             # ... or a slot of a state holder created there (state.codec = zlib.decompressobj(...))
             from .common import subscribe_inits
             created |= {name for name, v in subscribe_inits(site).items() if ("." in name or "[" in name) and isinstance(v, ast.Call)}
